@@ -2755,3 +2755,341 @@ CLI_EVALUATE_MODEL = dict(
 
 ALL += [CLI_PRNG, CLI_CALCULATE_SCORES, CLI_SELECT_NEXT_PLATE, CLI_TRAIN_MODEL, CLI_REVEAL_PLATE, CLI_PREPARE, CLI_EXTRACT_METADATA,
         CLI_DISTANCE_MATRIX, CLI_EVALUATE_MODEL]
+# ---- C13 / C11: the shipped generators, smoothers, the random hold-out, SparseCover and the combination filter, linked to the
+# models of Model/Retro.v / RetroHoldout.v / RetroInit.v (the subjects of the C13 shape and C11 conservation theorems).  Conventions
+# of the MergeMin link above: a Screen = the list of its experiments (`screen_t`), a Plate = its selection vector (`bvec`), a
+# sample id = the sample's name (ids are ranks of sorted names) except in NPlatePerCellLine, whose dict is keyed by the integer
+# ids; an array of row numbers = `list nat`; the recorded answers of the Generator still unread = `ds`.
+_RG = dict(file="src/batchie/retrospective.py", out="SrcRetroGen.v", overload=True,
+           imports="Model.Encode Model.Screen Model.Retro Model.Pairwise Model.RetroHoldout Model.RetroInit Generated.SrcRetro")
+_ST = {"s": "screen_t"}
+_LEN_Z = ("len(__l)", "zlen {l}", "Z")
+
+# SampleSegregatingPermutationPlateGenerator._generate_plates
+C13_SAMPLE_SEG = dict(
+    _RG, cls="SampleSegregatingPermutationPlateGenerator", func="_generate_plates", name="src_sample_seg_generate_plates",
+    pyparams=["self", "screen", "rng"],
+    params=[("max_plate_size", "Z"), ("screen", "screen_t"), ("ds", "list draw")], returns="screen_t", return_state=["ds"],
+    vars={"plate_indices": "list list nat", "sample_id": "name", "sample_indices": "list nat", "n_plates": "Z",
+          "plates": "list list nat", "plate": "list nat", "plate_names": "list name", "idx": "Z", "indices": "list nat"},
+    prims=[
+        ("self.max_plate_size", "max_plate_size", "Z"),
+        ("__s.unique_sample_ids", "sample_names {s}", "list name", _ST),              # ids = ranks of the sorted names
+        ("np.arange(__s.size)[__s.sample_ids == __i]", "idx_where (in_sample {i}) {s}", "list nat", {"s": "screen_t", "i": "name"}),
+        ("math.ceil(len(__a) / float(__b))", "!ceil_div_float (zlen {a}) {b}", "Z", {"a": "list nat", "b": "Z"}),
+        _LEN_Z,
+        ("np.array_split(__a, __n)", "!array_split_z {a} {n}", "list list nat", {"a": "list nat", "n": "Z"}),
+        ("np.array([''] * __s.size, dtype=object)", "blank_names (length {s})", "list name", _ST),
+        (_SCREEN_LABELLED, "!screen_labelled {s} {l}", "screen_t", {"s": "screen_t", "l": "list name"}),
+    ],
+    expr_state_calls=[("rng.permutation(__a)", ["ds"], "permutation_ints {a} ds", "list nat", {"a": "list nat"})],
+    assign_effects=[("plate_names[__i] = f'generated_plate_{__k}'", "plate_names'", "!set_at {state} {i} (gen_name (Z.to_nat {k}))")],
+    ignore=["logger.info(__a)"],
+)
+
+# FixedSizeSmoother / OptimalSizeSmoother._smooth_plates
+_SIZE_PRIMS = [
+    ("__s.plates", "plates_of {s}", "list bvec", _ST),
+    ("__p.size", "plate_size {p}", "Z", {"p": "bvec"}),
+    ("__p.selection_vector", "{p}", "bvec", {"p": "bvec"}),
+    ("np.arange(__s.size)[__p.selection_vector]", "vec_positions {p}", "list nat", {"s": "screen_t", "p": "bvec"}),
+    ("np.isin(np.arange(__s.size), __i)", "vof_idx (length {s}) {i}", "bvec", {"s": "screen_t", "i": "list nat"}),
+    ("Plate(screen, __v)", "{v}", "bvec", {"v": "bvec"}),                  # a plate of `screen` is its selection vector
+    ("np.zeros(__s.size, dtype=bool)", "repeat false (length {s})", "bvec", _ST),
+    ("__a | __b", "vor {a} {b}", "bvec", {"a": "bvec", "b": "bvec"}),
+    ("__s.subset(__v)", "subset_of {s} {v}", "subset_t", {"s": "screen_t", "v": "bvec"}),
+    ("__s.to_screen()", "to_screen {s}", "screen_t", {"s": "subset_t"}),
+]
+_SIZE = dict(
+    _RG, func="_smooth_plates", pyparams=["self", "screen", "rng"], returns="screen_t", return_state=["ds"],
+    vars={"results": "list bvec", "plate": "bvec", "new_indices": "list nat", "new_selection_vector": "bvec",
+          "final_selection_vector": "bvec", "plate_sizes": "list Z", "i": "Z", "optimal_size": "Z"},
+    state_calls=[("rng.choice(__a, __n, replace=False)", ["ds"], "choice_ints {a} {n} ds", "list nat", {"a": "list nat", "n": "Z"})],
+    ignore=["logger.info(__a)"],
+)
+C13_FIXED_SIZE = dict(
+    _SIZE, cls="FixedSizeSmoother", name="src_fixed_size_smooth_plates",
+    params=[("fixed_size", "Z"), ("screen", "screen_t"), ("ds", "list draw")],
+    prims=[("self.plate_size", "fixed_size", "Z")] + _SIZE_PRIMS,
+)
+C13_OPTIMAL_SIZE = dict(
+    _SIZE, cls="OptimalSizeSmoother", name="src_optimal_size_smooth_plates", unused_params=["self"],
+    params=[("screen", "screen_t"), ("ds", "list draw")],
+    prims=_SIZE_PRIMS + [
+        ("np.sort(np.array(__l))", "sort_z {l}", "list Z", {"l": "list Z"}),
+        ("np.argmax(__a)", "!argmax_z {a}", "Z", {"a": "list Z"}),
+        ("np.arange(__n)", "zrange {n}", "list Z", {"n": "Z"}),
+        ("__a * __b", "vmul_z {a} {b}", "list Z", {"a": "list Z", "b": "list Z"}),
+        ("__n - __v", "rsub_z {n} {v}", "list Z", {"n": "Z", "v": "list Z"}),
+        ("__a[__i]", "!list_get {a} {i}", "Z", {"a": "list Z", "i": "Z"}),
+        _LEN_Z,
+    ],
+)
+ALL += [C13_SAMPLE_SEG, C13_FIXED_SIZE, C13_OPTIMAL_SIZE]
+
+# NPlatePerCellLineSmoother: the defaultdict is keyed by the integer sample ids (ranks of the sorted unique names of `screen`)
+C13_NPLATE_SAMPLE_ID = dict(
+    _RG, cls="NPlatePerCellLineSmoother", func="_get_plate_sample_id", name="src_nplate_get_plate_sample_id",
+    pyparams=["self", "plate"], params=[("s", "screen_t"), ("plate", "bvec")], returns="Z", vars={},
+    prims=[
+        ("__p.unique_sample_ids", "plate_unique_sample_ids {p} s", "list Z", {"p": "bvec"}),
+        _LEN_Z,
+        ("__l[0]", "!first_item {l}", "Z", {"l": "list Z"}),
+    ],
+    raises=[("only valid for one-sample-per-plate designs", 4)],
+)
+C13_NPLATE = dict(
+    _RG, cls="NPlatePerCellLineSmoother", func="_smooth_plates", name="src_nplate_smooth_plates",
+    pyparams=["self", "screen", "rng"], unused_params=["rng"],
+    params=[("min_n_cell_line_plates", "Z"), ("screen", "screen_t")], returns="screen_t",
+    vars={"plate_counts": "dict", "plate": "bvec", "sample_names_by_id": "list name", "sample_id": "Z", "plate_count": "Z",
+          "screen": "screen_t"},
+    prims=[
+        ("self.min_n_cell_line_plates", "min_n_cell_line_plates", "Z"),
+        ("defaultdict(lambda: 0)", "[]", "dict"),
+        ("__s.plates", "plates_of {s}", "list bvec", _ST),
+        # the plates' parent is `screen` (they come from screen.plates, before `screen` is rebound)
+        ("self._get_plate_sample_id(__p)", "!src_nplate_get_plate_sample_id screen' {p}", "Z", {"p": "bvec"}),
+        ("__s.sample_mapping[0]", "sample_names {s}", "list name", _ST),     # the unique sample names, by id
+        ("__s.sample_names != __n", "sample_name_ne {s} {n}", "bvec", {"s": "screen_t", "n": "name"}),
+        ("__l[__i]", "!list_get {l} {i}", "name", {"l": "list name", "i": "Z"}),
+        ("__s.subset(__v)", "subset_of {s} {v}", "subset_t", {"s": "screen_t", "v": "bvec"}),
+        ("__s.to_screen()", "to_screen {s}", "screen_t", {"s": "subset_t"}),
+    ],
+    ignore=["logger.info(__a)"],
+)
+
+# BatchieEnsemblePlateSmoother._smooth_plates: each call is the translated wrapper smooth_plates (core.py) around the translated
+# _smooth_plates of the class the source names, with the constructor argument the source passes
+_SM = {"s": "screen_t"}
+C13_ENSEMBLE = dict(
+    _RG, cls="BatchieEnsemblePlateSmoother", func="_smooth_plates", name="src_ensemble_smooth_plates",
+    pyparams=["self", "screen", "rng"],
+    params=[("min_size", "Z"), ("n_iterations", "Z"), ("min_n_cell_line_plates", "Z"), ("screen", "screen_t"), ("ds", "list draw"),
+            ("fuel", "nat")],
+    returns="screen_t", return_state=["ds"], vars={"screen": "screen_t"},
+    state_calls=[
+        ("MergeMinPlateSmoother(min_size=self.min_size).smooth_plates(__s, rng)", ["ds"],
+         "src_smooth_plates (fun s__ d__ => src_merge_min_smooth_plates min_size s__ d__ fuel) {s} ds", "screen_t", _SM),
+        ("MergeTopBottomPlateSmoother(n_iterations=self.n_iterations).smooth_plates(__s, rng)", ["ds"],
+         "src_smooth_plates (fun s__ d__ => dor r__ <- src_merge_tb_smooth_plates n_iterations s__; Ok (r__, d__)) {s} ds", "screen_t", _SM),
+        ("OptimalSizeSmoother().smooth_plates(__s, rng)", ["ds"],
+         "src_smooth_plates src_optimal_size_smooth_plates {s} ds", "screen_t", _SM),
+        ("NPlatePerCellLineSmoother(min_n_cell_line_plates=self.min_n_cell_line_plates).smooth_plates(__s, rng)", ["ds"],
+         "src_smooth_plates (fun s__ d__ => dor r__ <- src_nplate_smooth_plates min_n_cell_line_plates s__; Ok (r__, d__)) {s} ds",
+         "screen_t", _SM),
+    ],
+)
+
+# PlatePermutationPlateGenerator._generate_plates
+C13_PLATE_PERMUTATION = dict(
+    _RG, cls="PlatePermutationPlateGenerator", func="_generate_plates", name="src_plate_permutation_generate_plates",
+    pyparams=["self", "screen", "rng"],
+    params=[("force", "opt list name"), ("screen", "screen_t"), ("ds", "list draw")], returns="screen_t", return_state=["ds"],
+    vars={"selection_vector": "bvec", "to_permute": "screen_t", "non_permuted": "opt screen_t", "new_plate_names": "list name",
+          "permuted": "screen_t"},
+    prims=[
+        ("self.force_include_plate_names", "force", "opt list name"),
+        ("~np.isin(__s.plate_names, __f)", "plate_not_in {s} {f}", "bvec", {"s": "screen_t", "f": "list name"}),
+        ("np.ones(__s.size, dtype=bool)", "repeat true (length {s})", "bvec", _ST),
+        ("np.any(~__v)", "existsb negb {v}", "bool", {"v": "bvec"}),
+        ("~__v", "map negb {v}", "bvec", {"v": "bvec"}),
+        ("__s.subset(__v)", "subset_of {s} {v}", "subset_t", {"s": "screen_t", "v": "bvec"}),
+        ("__s.to_screen()", "to_screen {s}", "screen_t", {"s": "subset_t"}),
+        ("__s.plate_names", "map r_plate {s}", "list name", _ST),
+        (_SCREEN_RENAMED, "!screen_renamed {s} {n}", "screen_t", {"s": "screen_t", "n": "list name"}),
+        ("__a.combine(__b)", "!combine_screens {a} {b}", "screen_t", {"a": "screen_t", "b": "screen_t"}),
+    ],
+    state_calls=[("rng.permutation(__a)", ["ds"], "permutation_names {a} ds", "list name", {"a": "list name"})],
+)
+ALL += [C13_NPLATE_SAMPLE_ID, C13_NPLATE, C13_ENSEMBLE, C13_PLATE_PERMUTATION]
+
+# create_random_holdout (retrospective.py): conventions of C11_BALANCED_HOLDOUT; the single math.ceil(size * fraction) is the exact
+# ceiling or Python's own value (`count`, see Model/RetroHoldout.v)
+_COLS_R = ("treatment_names=__s.treatment_names[{i}], treatment_doses=__s.treatment_doses[{i}], observations=__s.observations[{i}], "
+           "sample_names=__s.sample_names[{i}], plate_names=__s.plate_names[{i}], control_treatment_name=__s.control_treatment_name, "
+           "observation_mask={m}, sample_mapping=__s.sample_mapping, treatment_mapping=__s.treatment_mapping")
+C11_RANDOM_HOLDOUT = dict(
+    _RG, func="create_random_holdout", name="src_random_holdout",
+    pyparams=["screen", "fraction", "rng"],
+    params=[("num", "Z"), ("den", "positive"), ("count", "opt Z"), ("screen", "screen_t"), ("ds", "list draw")],
+    returns="(screen_t * screen_t)", return_state=["ds"],
+    vars={"selection_vector": "bvec", "indices": "list nat", "keep_screen": "screen_t", "holdout_screen": "screen_t"},
+    prims=[
+        ("fraction < 0", "num <? 0", "bool"),
+        ("fraction > 1", "Zpos den <? num", "bool"),
+        ("np.zeros(__s.size, dtype=bool)", "repeat false (length {s})", "bvec", _ST),
+        ("np.arange(__s.size)", "seq 0 (length {s})", "list nat", _ST),
+        ("math.ceil(__s.size * fraction)", "ceil_size {s} num den count", "Z", _ST),
+        ("Screen(" + _COLS_R.format(i="~__v", m="__s.observation_mask[~__v]") + ")", "!screen_without {s} {v}", "screen_t",
+         {"s": "screen_t", "v": "bvec"}),
+        ("Screen(" + _COLS_R.format(i="__v", m="np.ones(np.count_nonzero(__v), dtype=bool)") + ")", "!screen_observed_of {s} {v}",
+         "screen_t", {"s": "screen_t", "v": "bvec"}),
+    ],
+    state_calls=[("rng.choice(__a, __n, replace=False)", ["ds"], "choose {a} {n} ds", "list nat", {"a": "list nat", "n": "Z"})],
+    assign_effects=[("selection_vector[__i] = True", "selection_vector'", "set_true (length screen') {state} {i}")],
+    raises=[("fraction must be between 0 and 1", 5)],
+)
+ALL += [C11_RANDOM_HOLDOUT]
+
+# SparseCoverPlateGenerator._generate_and_unmask_initial_plate and its public wrapper (core.py).  A treatment id is `tid`
+# (None = CONTROL_SENTINEL_VALUE, Model/RetroInit.v); `ctrl` = screen.control_treatment_name (it only enters screen.treatment_ids);
+# a set of ids = any list of its elements; the 1-element array answered by rng.choice(a, size=1) = its element (`nat`).
+# `selection_vector` is read by the while loop although only the for loop assigns it: it is predefined (empty), which is what
+# the model needs when the screen has no sample (Python never reads it then: no treatment remains).
+_TM = "list list tid"
+_SCREEN_WITH = ("Screen(treatment_names=__s.treatment_names, treatment_doses=__s.treatment_doses, observations=__o, "
+                "sample_names=__s.sample_names, plate_names=__p, control_treatment_name=__s.control_treatment_name, "
+                "observation_mask=__m)")
+_TID_PRIMS = [
+    ("CONTROL_SENTINEL_VALUE", "None", "tid"),
+    ("__s.treatment_ids", "treatment_ids ctrl {s}", _TM, _ST),
+    ("np.isin(np.arange(__s.size), __i)", "vof_idx (length {s}) {i}", "bvec", {"s": "screen_t", "i": "list nat"}),
+    ("np.isin(__a, __l)", "isin2 {a} {l}", "list bvec", {"a": _TM, "l": "list tid"}),
+    ("np.any(__m, axis=1)", "any_rows {m}", "bvec", {"m": "list bvec"}),
+    ("np.all(__m, axis=1)", "all_rows {m}", "bvec", {"m": "list bvec"}),
+    ("~__m", "not2 {m}", "list bvec", {"m": "list bvec"}),
+    ("~__v", "map negb {v}", "bvec", {"v": "bvec"}),
+    ("__m.flatten()", "concat {m}", "list tid", {"m": _TM}),
+    ("__s.subset(__v)", "subset_of {s} {v}", "subset_t", {"s": "screen_t", "v": "bvec"}),
+    ("__s.to_screen()", "to_screen {s}", "screen_t", {"s": "subset_t"}),
+]
+C13_SPARSE_COVER = dict(
+    _RG, cls="SparseCoverPlateGenerator", func="_generate_and_unmask_initial_plate", name="src_sparse_cover",
+    pyparams=["self", "screen", "rng"],
+    params=[("ctrl", "name"), ("reveal", "bool"), ("screen", "screen_t"), ("ds", "list draw"), ("fuel", "nat")],
+    returns="screen_t", return_state=["ds"], while_fuel="fuel", while_cond=True,
+    vars={"covered_treatments": "list tid", "chosen_selection_indices": "list nat", "sample_id": "name",
+          "experiments_with_at_least_one_treatment_not_in_covered_treatments": "bvec", "selection_vector": "bvec",
+          "selection_indices": "list nat", "chosen_selection_index": "nat", "remaining_treatments": "list tid",
+          "experiments_with_at_least_one_treatment_in_remaining_treatments": "bvec", "final_plate_selection_vector": "bvec",
+          "single_drug_experiments": "bvec", "plate_names": "list name", "observation_vector": "list Z"},
+    predefine={"selection_vector": "[]"},
+    prims=_TID_PRIMS + [
+        ("self.reveal_single_treatment_experiments", "reveal", "bool"),
+        ("set()", "[]", "list tid"),
+        ("set(__l)", "{l}", "list tid", {"l": "list tid"}),
+        ("list(__l)", "{l}", "list tid", {"l": "list tid"}),
+        ("__s.unique_sample_ids", "sample_names {s}", "list name", _ST),
+        ("__s.sample_ids == __i", "map (in_sample {i}) {s}", "bvec", {"s": "screen_t", "i": "name"}),
+        ("__a & __b", "vand {a} {b}", "bvec", {"a": "bvec", "b": "bvec"}),
+        ("__a | __b", "vor {a} {b}", "bvec", {"a": "bvec", "b": "bvec"}),
+        ("__v.sum()", "Z.of_nat (vcount {v})", "Z", {"v": "bvec"}),
+        ("np.arange(__v.size)[__m]", "!positions_of (length {v}) {m}", "list nat", {"v": "bvec", "m": "bvec"}),
+        ("__a[__i]", "!rows_at {a} {i}", _TM, {"a": _TM, "i": "list nat"}),
+        ("np.setdiff1d(__a, __l)", "setdiff_ids {a} {l}", "list tid", {"a": _TM, "l": "list tid"}),
+        _LEN_Z,
+        ("np.array(['initial_plate'] * __s.size, dtype=str)", "repeat initial_plate (length {s})", "list name", _ST),
+        ("__s.observations.copy()", "map r_obs {s}", "list Z", _ST),
+        (_SCREEN_WITH, "!screen_with {s} {o} {p} {m}", "screen_t", {"s": "screen_t", "o": "list Z", "p": "list name", "m": "bvec"}),
+    ],
+    state_calls=[
+        ("rng.choice(__a, size=1)", ["ds"], "choose_one {a} ds", "nat", {"a": "list nat"}),
+        ("rng.choice(__a, 1)", ["ds"], "choose_one {a} ds", "nat", {"a": "list nat"}),
+    ],
+    effects=[("covered_treatments.update(__x)", "covered_treatments'", "{state} ++ {x}")],
+    assign_effects=[("plate_names[~__v] = 'unobserved_plate'", "plate_names'", "!label_unobserved {state} {v}")],
+    ignore=["logger.info(__a)"],
+)
+C13_INITIAL_WRAPPER = dict(
+    file="src/batchie/core.py", cls="InitialRetrospectivePlateGenerator", func="generate_and_unmask_initial_plate",
+    out="SrcRetroGen.v", imports=_RG["imports"], name="src_generate_and_unmask_initial_plate",
+    pyparams=["self", "screen", "rng"], params=[("f", "initial_inner"), ("screen", "screen_t"), ("ds", "list draw")],
+    returns="screen_t", return_state=["ds"], vars={},
+    prims=[("__s.is_observed", "forallb r_mask {s}", "bool", _ST)],       # Screen.is_observed = np.all(observation_mask)
+    expr_state_calls=[("self._generate_and_unmask_initial_plate(__s, rng)", ["ds"], "f {s} ds", "screen_t", _ST)],
+    raises=[("must be fully observed", 8)],
+)
+ALL += [C13_SPARSE_COVER, C13_INITIAL_WRAPPER]
+
+# filter_dataset_to_treatments_that_appear_in_at_least_one_combo (data.py).  `arity` = the number of treatment columns;
+# np.unique of ids -> any list of the same elements (only membership is observed); to_screen() runs the Screen constructor,
+# whose checks reduce to the plate-uniform one here ([construct], as in the model)
+C13_COMBO_FILTER = dict(
+    _RG, file="src/batchie/data.py", func="filter_dataset_to_treatments_that_appear_in_at_least_one_combo", name="src_combo_filter",
+    pyparams=["screen"], params=[("ctrl", "name"), ("arity", "nat"), ("screen", "screen_t")], returns="screen_t",
+    vars={"treatment_ids": _TM, "treatment_selection_vector": "bvec", "treatments_to_select": "list tid",
+          "treatments_to_select_plus_controls": "list tid", "filtered_treatment_names": "list name", "screen_selection_vector": "bvec"},
+    prims=[
+        ("__s.treatment_arity", "screen_arity arity", "Z", _ST),
+        ("(__a == CONTROL_SENTINEL_VALUE).reshape(__a.shape)", "is_sentinel2 {a}", "list bvec", {"a": _TM}),
+        ("np.in1d(__a, __l).reshape(__a.shape)", "isin2 {a} {l}", "list bvec", {"a": _TM, "l": "list tid"}),
+        ("np.unique(__s.treatment_names[__v].flatten())", "unique_treatment_names {s} {v}", "list name", {"s": "screen_t", "v": "bvec"}),
+        ("np.unique(__l)", "{l}", "list tid", {"l": "list tid"}),
+        ("np.concatenate([__a, __b])", "{a} ++ {b}", "list tid", {"a": "list tid", "b": "list tid"}),
+        ("__a[__v]", "rows_where {a} {v}", _TM, {"a": _TM, "v": "bvec"}),
+    ] + [p for p in _TID_PRIMS if p[0] != "__s.to_screen()"] + [
+        ("__s.to_screen()", "!construct {s}", "screen_t", {"s": "subset_t"}),
+    ],
+    ignore=["logger.info(__a)"],
+    raises=[("Dataset must have at least 2 treatments", 7)],
+)
+ALL += [C13_COMBO_FILTER]
+
+# PairwisePlateGenerator._generate_plates.  Treatment ids of the re-encoded combination screen are `nat` (ranks of its keys),
+# group / sample ids ints; np.argsort's answer is a recorded answer like the Generator's (its tie-break is implementation-defined).
+_IDM = "list list nat"
+_GM = "list list opt Z"
+_SCREEN_RENAMED_PW = ("Screen(treatment_names=__s.treatment_names, treatment_doses=__s.treatment_doses, observations=__s.observations, "
+                      "observation_mask=np.zeros(__s.size, dtype=bool), sample_names=__s.sample_names, plate_names=__n.astype(str), "
+                      "control_treatment_name=__s.control_treatment_name)")
+C13_PAIRWISE = dict(
+    _RG, cls="PairwisePlateGenerator", func="_generate_plates", name="src_pairwise_generate_plates",
+    pyparams=["self", "screen", "rng"],
+    params=[("ctrl", "name"), ("subset_size", "Z"), ("anchor_size", "Z"), ("screen", "screen_t"), ("ds", "list draw")],
+    returns="screen_t", return_state=["ds"], coerce=[("nat", "Z", "Z.of_nat {x}")], eqb={"name": "name_eqb"},
+    vars={"combo_mask": "bvec", "single_treatment_mask": "bvec", "combo_treatment_screen": "screen_t",
+          "single_treatment_screen": "opt screen_t", "unique_treatments": "list nat", "unique_treatment_counts": "list nat",
+          "anchor_dds": "list nat", "n_anchor_groups": "Z", "anchor_groups": _IDM, "remain_dds": "list nat", "n_remain_groups": "Z",
+          "remain_groups": _IDM, "groupings": _IDM, "n_groups": "Z", "num_groups": "Z", "group_lookup": "dict", "group_id": "Z",
+          "treatment_ids_in_group": "list nat", "treatment_id_in_group": "nat", "treatment_group_ids": _GM, "n_control": "Z",
+          "treatment_group_ids_sorted": "list list Z", "sample_id_col_vector": "list list Z", "grouping_tuples": "list list Z",
+          "unique_grouping_tuples": "list list Z", "new_plate_names": "list name", "idx": "Z", "unique_grouping_tuple": "list Z",
+          "mask": "bvec", "combo_screen_with_generated_plates": "screen_t", "sample_name": "name", "n_to_assign": "Z",
+          "eligible_plate_names": "list name", "assignments": "list name", "single_screen_with_generated_plates": "screen_t"},
+    prims=[
+        ("self.anchor_size", "anchor_size", "Z"),
+        ("CONTROL_SENTINEL_VALUE", "Generated.Consts.CONTROL_SENTINEL_VALUE", "Z"),
+        ("screen.treatment_ids == CONTROL_SENTINEL_VALUE", "control_entries ctrl screen'", "list bvec"),
+        ("np.any(__m, axis=1)", "any_in_rows {m}", "bvec", {"m": "list bvec"}),
+        ("~__v", "map negb {v}", "bvec", {"v": "bvec"}),
+        ("__v.any()", "existsb (fun b__ => b__) {v}", "bool", {"v": "bvec"}),
+        ("__s.subset(__v)", "subset_of {s} {v}", "subset_t", {"s": "screen_t", "v": "bvec"}),
+        ("__s.to_screen()", "to_screen {s}", "screen_t", {"s": "subset_t"}),
+        ("np.unique(__s.treatment_ids, return_counts=True)", "(unique_ids ctrl {s}, id_counts ctrl {s})", "(list nat * list nat)", _ST),
+        ("__a[:__n]", "slice_to {a} {n}", "list nat", {"a": "list nat", "n": "Z"}),
+        ("__u[__i]", "!take_at {u} {i}", "list nat", {"u": "list nat", "i": "list nat"}),
+        ("len(__a) // self.subset_size", "!floor_div (zlen {a}) subset_size", "Z", {"a": "list nat"}),
+        ("np.array_split(__a, __n)", "!array_split_z {a} {n}", _IDM, {"a": "list nat", "n": "Z"}),
+        ("np.setdiff1d(__a, __b)", "setdiff_sorted {a} {b}", "list nat", {"a": "list nat", "b": "list nat"}),
+        _LEN_Z,
+        ("np.vectorize(__d.get)(__s.treatment_ids)", "lookup_all {d} (screen_ids ctrl {s})", _GM, {"d": "dict", "s": "screen_t"}),
+        ("np.sum(__g == CONTROL_SENTINEL_VALUE)", "count_sentinel {g}", "Z", {"g": _GM}),
+        ("np.sort(__g, axis=1)", "!sort_rows {g}", "list list Z", {"g": _GM}),
+        ("__s.sample_ids[:, np.newaxis]", "sample_id_column {s}", "list list Z", _ST),
+        ("np.hstack([__a, __b])", "hstack2 {a} {b}", "list list Z", {"a": "list list Z", "b": "list list Z"}),
+        ("np.unique(__a, axis=0)", "unique_rows {a}", "list list Z", {"a": "list list Z"}),
+        ("np.array([''] * __s.size, dtype=object)", "blank_names (length {s})", "list name", _ST),
+        ("(__a == __t).all(axis=1)", "rows_equal {a} {t}", "bvec", {"a": "list list Z", "t": "list Z"}),
+        (_SCREEN_RENAMED_PW, "!screen_renamed {s} {n}", "screen_t", {"s": "screen_t", "n": "list name"}),
+        ("np.unique(__s.sample_names)", "sample_names {s}", "list name", _ST),
+        ("(__s.sample_names == __n).sum()", "Z.of_nat (vcount (map (in_sample {n}) {s}))", "Z", {"s": "screen_t", "n": "name"}),
+        ("np.unique(__s.plate_names[__s.sample_names == __n])", "plates_of_sample_named {s} {n}", "list name", {"s": "screen_t", "n": "name"}),
+        ("__a.combine(__b)", "!combine_screens {a} {b}", "screen_t", {"a": "screen_t", "b": "screen_t"}),
+    ],
+    expr_state_calls=[
+        ("np.argsort(-__c)", ["ds"], "argsort_desc {c} ds", "list nat", {"c": "list nat"}),
+        ("rng.permutation(__a)", ["ds"], "permutation_ints {a} ds", "list nat", {"a": "list nat"}),
+        ("rng.choice(range(__n), size=__k, replace=True)", ["ds"], "choice_range {n} {k} ds", "list nat", {"n": "Z", "k": "Z"}),
+        ("rng.choice(__a, size=__n, replace=True)", ["ds"], "choice_names {a} {n} ds", "list name", {"a": "list name", "n": "Z"}),
+    ],
+    assign_effects=[
+        ("treatment_group_ids[treatment_group_ids == CONTROL_SENTINEL_VALUE] = __v", "treatment_group_ids'", "!store_at_sentinel {state} {v}"),
+        ("new_plate_names[mask] = f'generated_plate_{__k}'", "new_plate_names'", "!set_where {state} mask' (gen_name (Z.to_nat {k}))"),
+        # the screen here is the Optional single_treatment_screen (assignment effects take their holes as they are): unwrapped
+        ("new_plate_names[__s.sample_names == __n] = assignments", "new_plate_names'",
+         "!(dor s__ <- unwrap {s}; store_where {state} (map (in_sample {n}) s__) assignments')"),
+    ],
+    raises=[("should be filtered before using this method", 6)],
+)
+ALL += [C13_PAIRWISE]
